@@ -1292,6 +1292,22 @@ pub fn parse(lex_tokens: &Vec<LexerToken>) -> Result<ParseResult, CompilerError>
         return Ok(ParseResult { root: 0, nodes });
     }
 
+    // an operator's right child is assumed to be the node created next; when nothing followed it
+    // (only annotations, dropped separators or a closing bracket) the link points past the tree
+    // or at a node that belongs to another parent, and is removed
+    for index in 0..nodes.len() {
+        if let Some(right) = nodes[index].right {
+            let is_child = match nodes.get(right) {
+                Some(child) => child.parent == Some(index),
+                None => false,
+            };
+
+            if !is_child {
+                nodes[index].right = None;
+            }
+        }
+    }
+
     // walk up tree to find root
     trace!("Finding root node");
     let mut root = 0;
